@@ -1,0 +1,13 @@
+//go:build verif
+
+package storage
+
+import "github.com/dtn7/dtn7-go/pkg/bpv7"
+
+// Hooks for the out-of-tree verification harness (build tag verif). Add-only.
+
+// VerifBundleDir returns the directory holding the part files.
+func (s *Store) VerifBundleDir() string { return s.bundleDir }
+
+// VerifPartPath is the file a bundle / fragment with this ID is stored in.
+func VerifPartPath(id bpv7.BundleID, bundleDir string) string { return bundlePartPath(id, bundleDir) }
